@@ -109,6 +109,17 @@ def run_property(mod, pid, tier, seed, replay=None):
                               {"case": case_to_json(c), "implementation": list(map(str, ri)),
                                "model": [str(q) for q in rm[1]] if rm[0] == "OK" else "absent",
                                "correspondence": mism, "stream": c.tag})
+    if hasattr(mod, "cross") and not replay:
+        for idx, text in mod.cross(cases, impl, model):
+            c, ri, rm = cases[idx], impl[idx], model[idx]
+            kf = mod.known(c, ri, rm, text) if hasattr(mod, "known") else None
+            if kf:
+                if kf not in rep.known:
+                    rep.known.append(kf)
+                continue
+            streams[c.tag]["predicate_failures"] += 1
+            rep.violation("predicate", text, {"case": case_to_json(c), "implementation": list(map(str, ri)),
+                                              "failed_predicate": text})
     if replay:
         for c, ri, rm in zip(cases, impl, model):
             print("replay case:", c.impl_line())
